@@ -35,6 +35,21 @@ type asmScenario struct {
 	clone    bool
 	hasAlias bool
 	allValid bool
+	files    map[string][]byte // initial content of every file (nil = absent)
+}
+
+// restore puts every file of the scenario back to its initial content.
+func (s *asmScenario) restore() error {
+	for name, b := range s.files {
+		if b == nil {
+			os.Remove(name)
+			continue
+		}
+		if err := os.WriteFile(name, b, 0644); err != nil {
+			return err
+		}
+	}
+	return nil
 }
 
 var asmSizes = []sizes{
@@ -136,7 +151,9 @@ func genAsmScenario(c *fw.Case, wantSeeds bool) *asmScenario {
 		s.prior = "nonzero-where-blob-is-zero"
 		prior = bytes.Repeat([]byte{0x55}, len(s.blob))
 	}
+	s.files = map[string][]byte{s.target: nil}
 	if prior != nil {
+		s.files[s.target] = append([]byte{}, prior...)
 		if err := os.WriteFile(s.target, prior, 0644); err != nil {
 			c.HarnessError("%v", err)
 		}
@@ -200,6 +217,7 @@ func genAsmScenario(c *fw.Case, wantSeeds bool) *asmScenario {
 			if err := os.WriteFile(sp.file, data, 0644); err != nil {
 				c.HarnessError("%v", err)
 			}
+			s.files[sp.file] = append([]byte{}, data...)
 			if !sp.validAtRest {
 				s.allValid = false
 			}
